@@ -29,6 +29,24 @@ class N:
     t: S2
     q: qubit
 
+
+@guppy.struct
+class SI:
+    xs: array[int, 3]
+    ys: array[int, 3]
+
+
+@guppy.declare
+def make_ai() -> array[int, 3]: ...
+
+
+@guppy.declare
+def nxt() -> int: ...
+
+
+@guppy.declare
+def nxt1(k: int) -> int: ...
+
 """
 
 Q = "TAtom true"
@@ -44,10 +62,15 @@ TYPES = {
     "N": ("N", f"(TProd [TProd [{Q}; {Q}]; TProd [{Q}; {Q}]; {Q}])", [(".s", "S2"), (".t", "S2"), (".q", "Q")], None),
     "AS": ("array[S2, 2]", f"(TArr (TProd [{Q}; {Q}]))", [], "S2"),
     "AA": ("array[array[qubit, 2], 2]", f"(TArr (TArr ({Q})))", [], "AQ2"),
+    "AI": ("array[int, 3]", "(TArr (TAtom false))", [], None),
+    "SI": ("SI", "(TProd [TArr (TAtom false); TArr (TAtom false)])", [(".xs", "AI"), (".ys", "AI")], None),
     "TN": ("tuple[S2, qubit]", f"(TProd [TProd [{Q}; {Q}]; {Q}])", [("[0]", "S2"), ("[1]", "Q")], None),
 }
-BORROWABLE = ["Q", "AQ", "S2", "TQ", "SA", "N", "AS", "AA", "TN", "AQ2"]
-EV = {"collections.borrow_arr.borrow": 1, "collections.borrow_arr.return": 2, "tket.quantum.H": 3, "tket.quantum.X": 4}
+BORROWABLE = ["Q", "AQ", "S2", "TQ", "SA", "N", "AS", "AA", "TN", "AI", "SI"]
+DROPPABLE = ["AI", "SI"]          # temporaries may be passed for borrowed parameters of these types
+EV = {"collections.borrow_arr.borrow": 1, "collections.borrow_arr.return": 2, "tket.quantum.H": 3, "tket.quantum.X": 4,
+      "collections.borrow_arr.new_array": 5}
+FIXED_CALLEES = {"make_ai": 6, "nxt": 7, "nxt1": 8}
 GATES = {"h": 3, "x": 4}
 
 
@@ -70,7 +93,7 @@ def places(root, rty, idx_vars):
         for i, (suf, kt) in enumerate(kids):
             go(text + suf, steps + [("c", i)], kt, depth)
         if elem and depth < 2:
-            for v in idx_vars:
+            for v in idx_vars + ["0", "1", "nxt()"] + [f"nxt1({w})" for w in idx_vars[:1]]:
                 go(f"{text}[{v}]", steps + [("s", v)], elem, depth + 1)
 
     go(root, [], rty, 0)
@@ -82,13 +105,23 @@ def overlaps(a, b):
     return a[:n] == b[:n]
 
 
-def coq_place(root_id, steps, fresh, pos_of):
+def coq_place(root_id, steps, fn):
+    """fn.items collects item id -> index expression"""
     t = f"(PVar {root_id})"
     for k, v in steps:
         if k == "c":
             t = f"(PChild {t} {v})"
         else:
-            t = f"(PSub {t} {fresh.next() * 16 + pos_of[v]})"
+            item = fn.fresh.next()
+            if v in fn.pos:
+                fn.items[item] = f"IParam {fn.pos[v]}"
+            elif v.isdigit():
+                fn.items[item] = f"IConst {v}"
+            elif v == "nxt()":
+                fn.items[item] = "ICall 7 None"
+            else:
+                fn.items[item] = f"ICall 8 (Some {fn.pos[v[5:-1]]})"
+            t = f"(PSub {t} {item})"
     return t
 
 
@@ -106,6 +139,8 @@ class Func:
         self.idx_vars = [v for v, t in params if t == "I"]
         self.lines, self.calls = [], []
         self.fresh = Fresh()
+        self.items = {}
+        self.temps = 0
         self.ret = None
 
     def all_places(self):
@@ -121,7 +156,9 @@ class Func:
         te = f"(fun x => match x with {te} | _ => TAtom false end)"
         params = "[" + "; ".join(str(i) for i in range(len(self.params))) + "]"
         outs = ([self.pos[self.ret]] if self.ret else []) + [i for i, (_, t) in enumerate(self.params) if t != "I"]
-        return f"(ser_result (run_function {te} {params} [{'; '.join(self.calls)}] [{'; '.join(map(str, outs))}]))"
+        ie = " | ".join(f"{k} => {v}" for k, v in self.items.items())
+        ie = f"(fun x => match x with {ie} | _ => IConst 0 end)" if self.items else "(fun _ => IConst 0)"
+        return f"(ser_result (run_function {te} {ie} {params} [{'; '.join(self.calls)}] [{'; '.join(map(str, outs))}]))"
 
     def text(self):
         ps = ", ".join(f"{v}: {TYPES[t][0]}" for v, t in self.params)
@@ -132,11 +169,13 @@ class Func:
 def gen_sig(r, force_pair=True):
     """callee signature: list of (kind, type); at least two same-typed borrowed inputs"""
     n = r.choice([2, 2, 3, 3, 4])
-    t0 = r.choice(BORROWABLE[:9])
+    t0 = r.choice(BORROWABLE + DROPPABLE + DROPPABLE)
     sig = [("b", t0), ("b", t0)] if force_pair else []
+    if t0 in DROPPABLE and n >= 3:
+        sig.append(("b", t0))
     while len(sig) < n:
         k = r.choice(["b", "b", "b", "i", "c"])
-        sig.append((k, r.choice(BORROWABLE[:9]) if k == "b" else "I"))
+        sig.append((k, r.choice(BORROWABLE) if k == "b" else "I"))
     r.shuffle(sig)
     nret = r.choice([0, 0, 1, 2, 3])
     return sig, nret
@@ -158,7 +197,25 @@ def add_call(r, fn, cname, cid, sig, nret):
     """append a call statement to fn; returns False when no disjoint places are available"""
     avail = fn.all_places()
     chosen, args_txt, args_coq = [], [], []
+    def temp_ai():
+        if r.random() < 0.5:
+            return "make_ai()", (6, 0)
+        return "array(0, 0, 0)", (5, 3)
+
+    def temp(t):
+        if t == "AI":
+            txt, (nm, nc) = temp_ai()
+            return txt, f"CTemp {nm} {nc}"
+        (ta, pa), (tb, pb) = temp_ai(), temp_ai()
+        return f"SI({ta}, {tb})", f"CStruct [({pa[0]}, {pa[1]}); ({pb[0]}, {pb[1]})]"
+
     for k, t in sig:
+        if k == "b" and t in DROPPABLE and r.random() < 0.45:
+            tt = temp(t)
+            args_txt.append(tt[0])
+            args_coq.append(tt[1])
+            fn.temps += 1
+            continue
         if k == "b" or k == "o":
             cands = [p for p in avail if p[2] == t and not any(overlaps(p[1], c) for c in chosen)]
             if t in ("AQ2",):
@@ -169,15 +226,16 @@ def add_call(r, fn, cname, cid, sig, nret):
             chosen.append(steps)
             args_txt.append(text)
             root = steps[0][1]
-            args_coq.append(f"CPlace {coq_place(fn.pos[root], steps[1:], fn.fresh, fn.pos)}")
+            args_coq.append(f"CPlace {coq_place(fn.pos[root], steps[1:], fn)}")
         elif k == "i":
             if fn.idx_vars and r.random() < 0.5:
                 v = r.choice(fn.idx_vars)
                 args_txt.append(v)
                 args_coq.append(f"CPlace (PVar {fn.pos[v]})")
             else:
-                args_txt.append(str(r.randrange(5)))
-                args_coq.append("CExpr 0")
+                c = r.randrange(5)
+                args_txt.append(str(c))
+                args_coq.append(f"CExpr {c}")
         else:
             args_txt.append(str(r.randrange(1, 4)))
             args_coq.append("CExpr 0")
@@ -197,7 +255,7 @@ def gen_case(r, cid):
 
     def mk_params(r, names):
         n = r.choice([2, 3, 3, 4])
-        ps = [(names[i], r.choice(BORROWABLE[:9])) for i in range(n)]
+        ps = [(names[i], r.choice(BORROWABLE + DROPPABLE)) for i in range(n)]
         return ps + [("i", "I"), ("j", "I")]
 
     g = Func("g", mk_params(r, ["u", "v", "w", "z"]))
@@ -226,7 +284,10 @@ def gen_case(r, cid):
     src = HEADER + "\n".join(decl_text(n, s, k) for n, _, s, k in leaves) + "\n" + g.text() + "\n" + m.text()
     names = {n: i for n, i, _, _ in leaves}
     names["g"] = 20
+    names.update(FIXED_CALLEES)
     return {"id": cid, "src": src, "entry": ["main", "g"], "funcs": ["main", "g"],
             "coq": {"main": m.coq(), "g": g.coq()}, "callee_ids": names,
             "shape": {"main_calls": len(m.calls), "g_calls": len(g.calls),
-                      "subscripts": (g.text() + m.text()).count("[i]") + (g.text() + m.text()).count("[j]")}}
+                      "subscripts": (g.text() + m.text()).count("[i]") + (g.text() + m.text()).count("[j]"),
+                      "effectful_indices": (g.text() + m.text()).count("[nxt"),
+                      "temporaries_for_borrowed": g.temps + m.temps}}
